@@ -90,6 +90,13 @@ func concScenarios() []concScen {
 		bigb.MaxSize = 3
 		out = append(out, concScen{"late " + late + "‖sweep(bounded)", bigb, setup, [][]string{{late}, sweep}, "native"})
 	}
+	// an automatic removal (expiry sweep, size eviction) of a key's value while a writer installs two more values of that
+	// key one after the other: the atomic handler must see the three removals in installation order
+	{
+		e := CacheCfg{Expiry: "writing", TTL: 10, Executor: "caller", ClockStart: 1 << 40}
+		out = append(out, concScen{"sweep‖Set;Set(same key)", e, []string{"set 1", "set 2"}, [][]string{{fmt.Sprintf("adv %d", 3*tickNs), "cleanup"}, {"set 1", "set 1"}}, "native"})
+		out = append(out, concScen{"evict‖Set;Set(same key)", CacheCfg{MaxSize: 1, Executor: "caller"}, []string{"set 1"}, [][]string{{"set 2"}, {"set 1", "set 1"}}, "native"})
+	}
 	// S6 load install || eviction
 	out = append(out, concScen{"load‖insert-evict/caller", CacheCfg{MaxSize: 2, Executor: "caller"}, two, [][]string{{"load 3"}, {"set 4"}}, "native"})
 	return out
